@@ -43,7 +43,7 @@ inductive Core
   | method (c : Core) (sp : Sp) (name : IdentTok) (args : List UExpr)
   | await (c : Core) (sp : Sp)
   | named (c : Core) (sp : Sp) (name : IdentTok)
-  | unnamed (c : Core) (sp : Sp) (index : Nat)
+  | unnamed (c : Core) (sp : Sp) (isp : Sp) (index : Nat)   -- `sp`: the `.`, `isp`: the index literal
   | index (c : Core) (sp : Sp) (e : UExpr)
   deriving Repr, Inhabited
 
@@ -63,7 +63,7 @@ def applyOp (ve : VExpr) : FieldOp → VExpr
   | .method name sp args => { ve with core := .method ve.core sp name args }
   | .await sp => { ve with core := .await ve.core sp }
   | .named name sp => { ve with core := .named ve.core sp name }
-  | .unnamed i sp => { ve with core := .unnamed ve.core sp i }
+  | .unnamed i sp => { ve with core := .unnamed ve.core sp sp i }
   | .index e sp => { ve with core := .index ve.core sp e }
 
 /-- `apply_field_operations(base, ops)` (a single operation or `Chained`). -/
@@ -163,9 +163,22 @@ def isStrLit (e : UExpr) : Bool :=
 def dbgPush (sp : Sp) (node : Nat) (v : VExpr) : Push := ⟨sp, node, .dbg v, .none⟩
 
 /-- `(#value_expr).#field_name`: field access on the parenthesised value expression. -/
-def wildBase (v : VExpr) : FieldName → Core
+def wildBase (v : VExpr) (rsp : Sp) : FieldName → Core
   | .ident i => .named (.paren v.pre v.core) Sp.callSite i
-  | .index n => .unnamed (.paren v.pre v.core) Sp.callSite n
+  | .index n => .unnamed (.paren v.pre v.core) Sp.callSite rsp n   -- since /repo 821460c the index literal carries the root access's span
+
+/-- The span recorded with one field operation. -/
+def FieldOp.span : FieldOp → Sp
+  | .deref _ sp | .method _ sp _ | .await sp | .named _ sp | .unnamed _ sp | .index _ sp => sp
+
+/-- `FieldOperation::root_field_span`: the span of the operation `root_field_name` reads. -/
+def FieldOps.rootFieldSp (f : FieldOps) : Sp :=
+  match f.ops with
+  | [op] => op.span
+  | ops =>
+    match ops.find? (fun o => !o.isDeref) with
+    | some op => op.span
+    | none => Sp.callSite
 
 mutual
 /-- `expand_pattern_assertion(value_expr, pattern)`. -/
@@ -221,7 +234,7 @@ def expandWildFields (v : VExpr) : Items → Codes
       | some ops =>
         match ops.rootFieldName? with
         | some f =>
-          let base : Core := wildBase v f
+          let base : Core := wildBase v ops.rootFieldSp f
           match ops.tailOps? with
           | some (some tl) => expandPat (applyOps (VExpr.ofCore base) tl) p
           | _ => expandPat ⟨[Pre.amp Sp.callSite], base⟩ p
